@@ -128,7 +128,7 @@ class HistoryMonitor:
         case = {"engine": str(engine), "inputs": [v.value for v in engine.input_variables]}
         for ov, fv in zip(engine.output_variables, fresh.output_variables):
             # (a disabled output variable is left untouched by processing - C12 - so its value is not an output of the step)
-            if ov.enabled and not W.same(ov.value, fv.value):
+            if ov.enabled and not W.agree(ctx, ov.value, fv.value, "output value"):
                 ctx.violation("outputs of a processing step differ from a freshly built engine given the same inputs (history leaks)", dict(case, variable=ov.name), fv.value, ov.value)
                 return
             if len(ov.fuzzy.terms) != len(fv.fuzzy.terms) or any(a.term.name != b.term.name or not W.same(a.degree, b.degree) for a, b in zip(ov.fuzzy.terms, fv.fuzzy.terms)):
